@@ -7,6 +7,9 @@ set -u
 bin="$1"; n="${2:-40}"
 tmp="$(mktemp -d /tmp/verif-selftest-XXXXXX)"; trap 'rm -rf "$tmp"' EXIT
 rc=0
+# the simulator's own unit tests and the instrumenter's fixture
+(cd /verif/sim/simrt && GOFLAGS=-mod=mod GOPROXY=off GOSUMDB=off GOTOOLCHAIN=local go test -count=1 . >/dev/null 2>&1) && echo "selftest: simrt unit tests pass" || { echo "selftest: simrt unit tests FAIL"; rc=1; }
+/verif/tools/instrument_selftest.sh | tail -1 | grep -q FIXTURE-OK && echo "selftest: instrumenter fixture ok (every rewritten construct, 300 seeds)" || { echo "selftest: instrumenter fixture FAIL"; rc=1; }
 # known hazards: Go map iteration reaching the event log
 if grep -n "sync\.Map" /verif/sim/simrt/*.go /verif/sim/harness/*.go >/dev/null; then echo "selftest: sync.Map in simulator code"; rc=1; fi
 for p in C04 C05 C06 C11 C12 C19; do
